@@ -1,5 +1,5 @@
 """C04 - no call sequence corrupts, over-reads or leaks memory (sanitizers + allocation conservation)."""
-from .. import sweeprun, common
+from .. import sweeprun, histrun, common
 
 
 def san_key(r, fn):
@@ -29,14 +29,34 @@ def main(tier):
     for (fn, kind, msg), v in viol.items():
         if kind == 'leak':
             ck.violation('leak:%s' % fn, 'allocation balance grows on every repetition of the call', dict(call=v['witness'], config=v['config'], count=v['count']))
+    # (b) allocation-conservation histories + (c) crystal-file histories, under ASan and (subset) valgrind
+    nh = 2000 if tier == 'quick' else 50000
+    hres = [histrun.run(cfg, 'asan', 'alloc', nh, 200) for cfg in ('shipped', 'kissel')]
+    hres.append(histrun.run('shipped', 'plain', 'alloc', 200 if tier == 'quick' else 2000, 120, valgrind=True))
+    for res in hres:
+        for c in res['crashes']:
+            if c['reports']:
+                for r in c['reports']:
+                    ck.violation('%s:%s' % (r['kind'], r['func']), '%s in %s during allocation history %s' % (r['kind'], r['func'], c['history']),
+                                 dict(history=c['history'], step=c['step'], op=c['op'], config=res['config'], flavour=res['flavour'], seed=ck.seed, report=r['text'][:1200]))
+            else:
+                ck.violation('crash:%s:history:%s' % (c['kind'], c['op'].split('(')[0]), 'history monitor died without a sanitizer report',
+                             dict(history=c['history'], step=c['step'], op=c['op'], tail=c.get('tail')))
+    hviol, hops, htot = histrun.merge(hres)
+    for key, v in hviol.items():
+        ck.violation(key, v['what'], dict(history_prefix=v['witness'], count=v['count']))
+    if htot['steps'] < 10000 or len(hops) < 8:
+        raise common.Inconclusive('allocation histories observed too little: %r' % (htot,))
     if tot['calls'] < 50000 or len(fns) < 100:
         raise common.Inconclusive('sweep observed too little: %r calls over %d functions' % (tot['calls'], len(fns)))
     samples = [dict(function=k, calls=v['calls'], ok=v['ok'], err=v['err']) for k, v in sorted(fns.items())[:30:3]]
-    cov = dict(evaluations=tot['calls'] * 2, distinct_nontrivial=len(paths) + len(fns),
+    cov = dict(evaluations=tot['calls'] * 2 + htot['steps'], distinct_nontrivial=len(paths) + len(fns) + len(hops),
                rule='ASan+UBSan build; every exported function x sampled argument space incl. INT_MIN/INT_MAX/+-2^16/+-2^20 for every int, '
                     'NULL and hostile strings; allocation balance read around every call (leak = grows on 3 of 3 repetitions); LSan at exit; '
-                    'distinct = functions driven + distinct (function, error path) pairs reached under the sanitizers',
-               samples=samples, functions=len(fns), error_paths=len(paths), leak_rechecks=tot['leakchecks'],
+                    'plus seeded allocation histories (length <= 200) over parser/catalogues/errors/crystals with random release order, replayed 3x for the balance; '
+                    'distinct = functions driven + distinct (function, error path) pairs reached under the sanitizers + object kinds created in histories',
+               samples=samples + [dict(history_objects=k[0], count=v) for k, v in sorted(hops.items())][:12], functions=len(fns),
+               histories=htot['histories'], history_steps=htot['steps'], valgrind_histories=200 if tier == 'quick' else 2000, error_paths=len(paths), leak_rechecks=tot['leakchecks'],
                sanitizer='gcc -fsanitize=address,undefined -fno-sanitize-recover=all', configs=['shipped', 'kissel'])
     return ck.finish(cov, ['red-zone sanitizers miss non-adjacent overflows and reuse after quarantine',
                            'held = no report on the executions above, not memory safety'])
